@@ -617,12 +617,12 @@ func (r *Router) waitForHandlers() bool {
 	waitGroup.Add(1)
 	go func() {
 		defer waitGroup.Done()
+
+		// The handler loops have to end first: a loop that is still running may dispatch
+		// a message it has already received. Only then no new handler can be started
+		// and waiting for the running handlers is final.
 		r.handlersWg.Wait()
 		verifhook.At("router.close.loops_done")
-	}()
-	waitGroup.Add(1)
-	go func() {
-		defer waitGroup.Done()
 
 		r.runningHandlersWgLock.Lock()
 		defer r.runningHandlersWgLock.Unlock()
